@@ -226,6 +226,7 @@ def run(chk):
     relocrules.payload_live(chk, emitters)
     relocrules.src_address(chk, rb, floor=1)
     relocrules.target_section_used(chk, rb)
+    relocrules.written_buffer_sized(chk, rb)
     fbl = chk.facts(UNIT, funcs=r"asmjit::CodeHolder::bind_label$")
     relocrules.bind_label_sections(chk, cfg.find_fn(fbl, "CodeHolder::bind_label"))
 
